@@ -267,6 +267,7 @@ def expand_splices(body):
             sub, d = expand_splices("\n".join(l for l in open(inc).read().split("\n") if not l.startswith("//@ verus")))
             out.append("// ---- included job %s ----" % s.split()[2])
             out.append(sub)
+            out.append("// ---- end included job %s ----" % s.split()[2])
             dropped += d
             i += 1
             continue
